@@ -19,13 +19,23 @@ def gen_case(rng, min_len_only=False):
     mm = n // 2 + m
     size = 2 * mm + 2
     num = size if min_len_only else rng.randint(size, 60)
-    kind = rng.choice(['uniform', 'nonuniform', 'dyadic', 'almost-uniform', 'fine'])
+    kind = rng.choice(['uniform', 'nonuniform', 'dyadic', 'almost-uniform', 'fine', 'graded', 'graded'])
     if kind == 'almost-uniform':
         # an equidistant grid with nodes displaced by a small fraction of the spacing: still an arbitrary grid, not a uniform one
         h = rng.choice([1.0, 0.5, 0.25, 0.1])
         rel = 10.0 ** rng.uniform(-9, -3)
         base = rng.randint(-8, 8) / 4
         x = [base + h * (i + rel * rng.uniform(-1, 1)) for i in range(num)]
+    elif kind == 'graded':
+        # geometric (boundary-layer) mesh: neighbouring spacings differ by a constant factor, so the weights of one stencil span many
+        # orders of magnitude (a weight that is tiny relative to the largest one still multiplies a sample that matters)
+        import math
+        r = rng.uniform(1.15, 1.9)
+        num = max(size, min(num, int(math.log(3e3) / math.log(r))))
+        t0 = rng.choice([1.0, 0.5, rng.uniform(0.2, 2.0)])
+        x = [t0 * r ** i for i in range(num)]
+        if rng.random() < 0.3:
+            x = [-v for v in x][::-1]
     elif kind == 'fine':
         # spacing far below 1 (absolute tolerances must not decide what "equidistant" means), slightly non-uniform
         h = 10.0 ** rng.uniform(-9, -5)
@@ -141,7 +151,7 @@ def run(ctx):
             ctx.mismatch('fdder.values', [n, m, x], len(du), len(model), 'length')
             continue
         fxa, xa = np.array([float(v) for v in fx]), np.array(x)
-        ratio = max(abs(a - b) / _point_bound(orig, xa, fxa, n, n // 2 + m, i, b) for i, (a, b) in enumerate(zip(du, model)))
+        ratio = max(abs(a - b) / _point_bound(None, xa, fxa, n, n // 2 + m, i, b) for i, (a, b) in enumerate(zip(du, model)))
         if ratio == 0:
             eng['exact'] += 1
         elif ratio <= 1:
@@ -169,9 +179,9 @@ def run(ctx):
             ctx.mismatch('fdder.guard', [L, n, extra], got, line)
 
     # ---------------- failing-input search ------------------------------------------------------------------------
-    ctx.search['rule'] = ('polynomials of degree 0..2*(n//2+m) with rational coefficients sampled on uniform / non-uniform / dyadic, '
+    ctx.search['rule'] = ('polynomials of degree 0..2*(n//2+m) with rational coefficients sampled on uniform / non-uniform / dyadic / geometric (graded), '
                           'increasing and decreasing grids of length 2mm+2..60, n 1..6, m 1..4; every output compared with the exact '
-                          'derivative at that grid point; bound C*eps*len*sum|w||fx| with w the weights of that point; output length = '
+                          'derivative at that grid point; bound C*eps*len*sum|w||fx| with |w| the absolute-value majorant of the exact weights of that point (computed by the harness); output length = '
                           'input length; non-trivial: degree >= n; distinct = distinct (n, m, grid, polynomial)')
     worst = 0.0
     for it in range(ctx.budget(300, 4000) * (3 if (ctx.broken or ctx.mismatches) else 1)):
@@ -194,7 +204,7 @@ def run(ctx):
         size = 2 * mm + 2
         for i in range(len(x)):
             exact = float(peval(dc, Fraction(x[i])))
-            bound = _point_bound(fornberg.fd_weights, xa, fx, n, mm, i, exact)
+            bound = _point_bound(None, xa, fx, n, mm, i, exact)
             d = abs(float(du[i]) - exact)
             worst = max(worst, d / bound)
             if d > bound:
@@ -214,7 +224,12 @@ def _point_bound(fd_weights, xa, fx, n, mm, i, exact):
         lo, hi = len(xa) - size, len(xa)
     else:
         lo, hi = i - mm, i + mm + 1
-    w = fd_weights(xa[lo:hi], x0=xa[i], n=n)
+    if fd_weights is None:
+        # independent of the implementation: the absolute-value majorant of the exact Lagrange-derivative weights
+        from harness.props.C15 import _majorant
+        w = np.array(_majorant([float(v) for v in xa[lo:hi]], float(xa[i]), n))
+    else:
+        w = fd_weights(xa[lo:hi], x0=xa[i], n=n)
     mag = float(np.sum(np.abs(w) * np.abs(fx[lo:hi]))) + abs(exact)
     return ENVELOPE * EPS * (hi - lo) * max(mag, 1e-300)
 
